@@ -459,6 +459,44 @@ func checkC12(p *Program, r *Report) {
 					}
 				}
 			}
+			if !okReset {
+				// reset by an in-package helper called on the receiver before the traversal (stores in its entry block)
+				for _, b := range ext.Blocks {
+					for _, in := range b.Instrs {
+						hc, ok := in.(*ssa.Call)
+						if !ok || hc == tcall || !instrDominates(hc, tcall) {
+							continue
+						}
+						cal := hc.Call.StaticCallee()
+						if cal == nil || !p.InRepo(cal) || len(cal.Blocks) == 0 || len(hc.Call.Args) == 0 || canonRoot(hc.Call.Args[0]) != recv {
+							continue
+						}
+						for _, in2 := range cal.Blocks[0].Instrs {
+							st, ok := in2.(*ssa.Store)
+							if !ok {
+								continue
+							}
+							fa, ok := st.Addr.(*ssa.FieldAddr)
+							if !ok || fieldOfAddr(fa) != f || canonRoot(fa.X) != ssa.Value(cal.Params[0]) {
+								continue
+							}
+							if isZeroValue(st.Val) {
+								okReset, how = true, "reset by "+FnName(cal)+" before the traversal"
+							} else if ms, ok := st.Val.(*ssa.MakeSlice); ok {
+								if k, isK := constInt(ms.Len); isK && k == 0 {
+									okReset, how = true, "replaced by a fresh empty list in "+FnName(cal)+" before the traversal"
+								}
+							} else if sl, ok := st.Val.(*ssa.Slice); ok {
+								if _, isAlloc := sl.X.(*ssa.Alloc); isAlloc && sl.High != nil {
+									if k, isK := constInt(sl.High); isK && k == 0 {
+										okReset, how = true, "replaced by a fresh empty list in "+FnName(cal)+" before the traversal"
+									}
+								}
+							}
+						}
+					}
+				}
+			}
 			r.Add("C12.fresh", FnName(ext), "traversal state "+f.Name()+" starts from its initial value on every extraction", tcall.Pos(), okReset, how)
 		}
 	}
@@ -483,6 +521,26 @@ func checkC12(p *Program, r *Report) {
 				if isC && !v && fn == ext && instrDominates(st, tcall) && canonRoot(fa.X) == recv {
 					r.Add("C12.latch", FnName(fn), "the failure latch is cleared only at the start of an extraction, before the traversal", st.Pos(), true, "reset together with the cursors (C12.fresh)")
 					continue
+				}
+				if isC && !v && fn != ext {
+					// a reset helper: every call of it is made by the extraction entry point before the traversal
+					callers, okCallers := 0, true
+					for _, g := range p.Funcs {
+						for _, gb := range g.Blocks {
+							for _, gi := range gb.Instrs {
+								if hc, ok := gi.(*ssa.Call); ok && hc.Call.StaticCallee() == fn {
+									callers++
+									if g != ext || !instrDominates(hc, tcall) {
+										okCallers = false
+									}
+								}
+							}
+						}
+					}
+					if callers > 0 && okCallers && (fn.Object() == nil || !fn.Object().Exported()) {
+						r.Add("C12.latch", FnName(fn), "the failure latch is cleared only at the start of an extraction, before the traversal", st.Pos(), true, "reset helper called only by "+FnName(ext)+" ahead of the traversal")
+						continue
+					}
 				}
 				r.Add("C12.latch", FnName(fn), "store to the failure latch sets it", st.Pos(), isC && v, "the latch is monotone within an extraction: once bad, always bad")
 			}
